@@ -41,6 +41,18 @@ func lenFactAtLeast(b *ssa.BasicBlock, xv ssa.Value, need int64) bool {
 		if _, isC := constInt(x); isC {
 			x, y, op = y, x, swapOp(op)
 		}
+		// s != "" is len(s) >= 1
+		if need <= 1 && op == token.NEQ {
+			sx, sy := x, y
+			if e, isS := constString(sx); isS && e == "" {
+				sx, sy = sy, sx
+			}
+			if e, isS := constString(sy); isS && e == "" {
+				if sx == xv || strip(sx, false) == strip(xv, false) || sameValue(sx, xv) || pathOf(sx) == pathOf(xv) {
+					return true
+				}
+			}
+		}
 		k, isK := constInt(y)
 		if !isK || !isLenOf2(x, xv) {
 			continue
